@@ -417,6 +417,8 @@ class Function:
                 return n.get("op") in self._PURE_BIN and all(pure(c, written, written_mem) for c in n["c"])
             if k == "un":
                 return n.get("op") == "-" and pure(n["c"][0], written, written_mem)
+            if k == "call" and n.get("ck") == "mem" and n.get("cconst") and len(n.get("c", ())) == 1:
+                return pure(n["c"][0], written, written_mem)      # argument-less const member call on an object nothing writes in between
             return False
 
         def bare(t):
